@@ -24,6 +24,7 @@ RULE = ("2..4 tasks issue 1..3 operations each (call key, cache_clear, cache_dis
         "reproduced by SOME valid LRU state (ordered subset of successfully completed keys of the reported size, "
         "each with one of its produced values) replayed on an OrderedDict model (existential check). "
         "one evaluation = one executed schedule; distinct = (scenario, schedule trace)")
+RULE += (' Also: planned failures of every standard exception type; None/0/() results for one key; a cancellation thrown into a worker must come out of the cached call (overlapping identical calls).')
 ASSUMPTIONS = ["cache contents during concurrency are not pinned, only constrained existentially at quiescence",
                "the OrderedDict LRU model is the one cross-validated against functools.lru_cache by C10"]
 EXHAUSTIVE_SUBSPACES = 'every scenario counted in scenarios_explored_exhaustively had ALL its interleavings executed'
